@@ -9,7 +9,7 @@ the current one: `bind` replaces).
 `Registry.add`, `findModule`, `Mod.current`, `Mod.fullName` are the subject of property C13
 (Goyang/Props/C13.lean); they mirror the code after the repair of D16 (a module without a
 revision is remembered in `Modules.unrevisioned` and holds its bare name only while no revision
-of the same name is present).  String comparison is Go's byte-wise `<` (`strLt`).
+of the same name is present) and of D61 (a name containing `@` is rejected).  String comparison is Go's byte-wise `<` (`strLt`).
 -/
 namespace Goyang.Model
 
@@ -78,7 +78,10 @@ def byId (r : Registry) (id : Nat) : Option Mod := r.mods.find? (·.seq == id)
 def getModule (r : Registry) (key : String) : Option Mod := (r.modules.get? key).bind r.byId
 def getSub (r : Registry) (key : String) : Option Mod := (r.subModules.get? key).bind r.byId
 
-inductive AddErr | duplicate (kind fullName : String)
+inductive AddErr
+  | duplicate (kind fullName : String)
+  /-- the name contains `@`, the separator of name and revision in the table keys -/
+  | badName (kind name : String)
   deriving Repr
 
 /-- The table for a kind: `ms.SubModules` or `ms.Modules` (Go: `m` in `add` and `FindModule`). -/
@@ -93,10 +96,8 @@ def withKm (r : Registry) (sub : Bool) (km : KeyMap) : Registry :=
 def withUm (r : Registry) (sub : Bool) (um : KeyMap) : Registry :=
   if sub then { r with unrevSubs := um } else { r with unrevModules := um }
 
-/-- `Modules.add` for a statement already built as a module/submodule node (the `default:` arm of
-the kind switch cannot be reached from `Parse`: the AST builder only returns `*Module` there).
-On an error the registry is unchanged (Go has by then only set `mod.Modules`). -/
-def add (r : Registry) (s : Stmt) : Except AddErr Registry :=
+/-- `Modules.add` after the check of the name: everything from `mod := n.(*Module)` on. -/
+def addChecked (r : Registry) (s : Stmt) : Except AddErr Registry :=
   let m : Mod := { seq := r.mods.length, stmt := s }
   let sub := m.isSub
   let kind := if sub then "submodule" else "module"
@@ -128,6 +129,37 @@ def add (r : Registry) (s : Stmt) : Except AddErr Registry :=
           | none => km     -- not reachable: every id in a table is the seq of a loaded module
           | some o => if strLt o.fullName full then km.bind name m.seq else km
       .ok (r1.withKm sub km)
+
+/-- `Modules.add` for a statement already built as a module/submodule node (the `default:` arm of
+the kind switch cannot be reached from `Parse`: the AST builder only returns `*Module` there).
+A name containing `@` is refused before anything is written (`strings.Contains(name, "@")`).
+On an error the registry is unchanged (Go has by then at most set `mod.Modules`). -/
+def add (r : Registry) (s : Stmt) : Except AddErr Registry :=
+  -- `name := n.NName()` is the argument of the statement (`Mod.name`)
+  if s.arg.toList.contains '@' then
+    .error (.badName (if (Mod.mk r.mods.length s).isSub then "submodule" else "module") s.arg)
+  else r.addChecked s
+
+/-- An accepted `add` passed the name check and is the rest of the function. -/
+theorem add_ok {r r' : Registry} {s : Stmt} (h : r.add s = .ok r') :
+    s.arg.toList.contains '@' = false ∧ r.addChecked s = .ok r' := by
+  unfold add at h
+  by_cases hc : s.arg.toList.contains '@' = true
+  · rw [if_pos hc] at h; cases h
+  · rw [if_neg hc] at h; exact ⟨Bool.eq_false_iff.mpr hc, h⟩
+
+/-- For a name without `@`, `add` is the rest of the function. -/
+theorem add_eq_addChecked {r : Registry} {s : Stmt} (h : s.arg.toList.contains '@' = false) :
+    r.add s = r.addChecked s := by
+  unfold add
+  rw [if_neg (by rw [h]; exact Bool.false_ne_true)]
+
+/-- A name with `@` is refused. -/
+theorem add_badName {r : Registry} {s : Stmt} (h : s.arg.toList.contains '@' = true) :
+    ∃ e, r.add s = .error e := by
+  unfold add
+  rw [if_pos h]
+  exact ⟨_, rfl⟩
 
 /-- Outcome of one load as `Modules.Parse` reports it. -/
 abbrev LoadOutcome := Option AddErr
